@@ -1,7 +1,5 @@
 package geometry
 
-import "math"
-
 // RaycastResult holds the results of the Raycast operation
 type RaycastResult struct {
 	In bool // point on the left
@@ -58,18 +56,16 @@ func (seg Segment) Raycast(point Point) RaycastResult {
 		return RaycastResult{false, true}
 	}
 
-	// do the actual raycast here.
-	for p.Y == a.Y || p.Y == b.Y {
-		p.Y = math.Nextafter(p.Y, math.Inf(1))
+	// do the actual raycast here. A segment end that is level with the point
+	// counts as being below the point, as if the point were raised by an
+	// infinitely small amount. (Raising it by one ulp instead is not small
+	// enough for points that are far from the origin or in the denormal range.)
+	lo, hi := a, b
+	if lo.Y > hi.Y {
+		lo, hi = hi, lo
 	}
-	if a.Y < b.Y {
-		if p.Y < a.Y || p.Y > b.Y {
-			return RaycastResult{false, false}
-		}
-	} else {
-		if p.Y < b.Y || p.Y > a.Y {
-			return RaycastResult{false, false}
-		}
+	if !(lo.Y <= p.Y && p.Y < hi.Y) {
+		return RaycastResult{false, false}
 	}
 	if a.X > b.X {
 		if p.X >= a.X {
@@ -86,14 +82,8 @@ func (seg Segment) Raycast(point Point) RaycastResult {
 			return RaycastResult{true, false}
 		}
 	}
-	if a.Y < b.Y {
-		if (p.Y-a.Y)/(p.X-a.X) >= (b.Y-a.Y)/(b.X-a.X) {
-			return RaycastResult{true, false}
-		}
-	} else {
-		if (p.Y-b.Y)/(p.X-b.X) >= (a.Y-b.Y)/(a.X-b.X) {
-			return RaycastResult{true, false}
-		}
+	if (p.Y-lo.Y)/(p.X-lo.X) >= (hi.Y-lo.Y)/(hi.X-lo.X) {
+		return RaycastResult{true, false}
 	}
 	return RaycastResult{false, false}
 }
